@@ -8,9 +8,10 @@ from common import call, outcome, all_of, any_of, sym_eq
 PROPERTY = "C03"
 LEVEL = "model_checking"
 BUDGET = {"quick": 240, "thorough": 2400}
-BOUNDS = {"quick": "kernel: R(R(s)) == R(s) for all texts of <= 2 code points x 4 requoters x 2 backends; URL level: 24 skeleton families with holes in "
+BOUNDS = {"quick": "kernel: R(R(s)) == R(s) for all texts of <= 2 code points x 4 requoters x 2 backends; URL level: 35 skeleton families with holes in "
                    "every component (escapes with symbolic hex digits incl. %2E, default / non-default ports, IPv6 / zone / IPv4 / mixed-case hosts, "
-                   "reg-name holes), free strings of <= 3 code points, URLs made by build() and 10 modifiers",
+                   "reg-name holes), free strings of <= 3 code points, URLs made by build() and 10 modifiers; "
+                   "ports that become / stop being the default through with_port, with_scheme and build on reg-name, IPv6, IPv6+zone and IPv4 hosts",
           "thorough": "kernel: all texts of <= 3 code points x 4 requoters x 2 backends"}
 ASSUMPTIONS = ["valid input (transcribed from the grammar, each a counted assumption): an RFC scheme if any; free text contains no ':' '[' ']' '@' "
                "or backslash (path-noscheme, balanced brackets around an IP literal); reg-name holes are drawn from the reg-name alphabet",
@@ -94,11 +95,37 @@ URL_SKELS = [
     ("default-port-http", ["http://h:80/", NS]), ("default-port-https", ["https://u@h:443/", NS, "?q"]), ("default-port-ws", ["ws://h:80", ("in", "/?#")]),
     ("default-port-ftp", ["ftp://h:21/", NS]), ("port-0", ["http://h:0/", NS]), ("userinfo-port-0", ["http://u", ("in", ":@a"), "@h:0/", NS]),
     ("userinfo-esc-default-port", ["http://u%", HEX, HEX, ":p%4", ("in", "0aA"), "@h:80/"]),
+    ("ipv6-default-port", ["http://[::1]:80/", NS]), ("ipv6-default-port-userinfo", ["https://u:", ("in", "pP%~!"), "@[2001:DB8::1]:443/p?q"]),
+    ("ipv4-default-port", ["ws://1.2.3.4:80", ("in", "/?#")]), ("ipv6-zone-default-port", ["ftp://[fe80::1%25eth0]:21/", NS]),
     ("ipv6", ["http://[::1]:8/", NS, "?", NS]), ("ipv6-zone", ["http://[fe80::1%25e", ("in", "tT0.-"), "h0]/p"]), ("ipv4-upper", ["HTTP://1.2.3.4/", NS]),
     ("host-case", ["hTTp://EXAMPLE.c", ("in", "oO0-"), "m:80/", NS]), ("regname", ["http://g", ("in", "aZ-._~!$&'()*+,;=%"), ("in", "aZ4-._~"), ("in", "bF1"), "c/"]),
     ("escaped-colon-first-segment", [("in", "Na1."), "%3", ("in", "Aa9"), NS]), ("netpath", ["//h/", NS, NS]), ("rooted", ["/a", NS, NS, NS]), ("scheme-rootless", ["http:", NS, NS]), ("other-scheme-rootless", ["x:", NS, NS]),
     ("other-scheme-slashes", ["foo:////", NS]), ("slashes", ["////", NS]), ("triple-slash", ["http:///", NS]), ("empty-auth-q", ["x://?", NS]),
 ]
+
+
+def h_port_routes(ctx, host):
+    """a port that becomes (or stops being) the scheme default through with_port / with_scheme / build, for each host kind"""
+    P = ctx.P
+    t = ctx.str("t", 1, no_surrogates=True)
+    hs = "[" + host + "]" if ":" in host else host
+    for scheme, other in (("http", "https"), ("https", "ws"), ("ftp", "x"), ("x", "http")):
+        base = call(P.URL, scheme + "://u@" + hs + "/" + t)
+        if base[0] != "ok":
+            ctx.observe("base", outcome(base))
+            continue
+        for port in (0, 21, 80, 443, 8080):
+            r = call(base[1].with_port, port)
+            ctx.observe("with_port", outcome(r))
+            if r[0] != "ok":
+                continue
+            reparse(ctx, r[1], "with_port")
+            m = call(r[1].with_scheme, other)
+            if m[0] == "ok":
+                reparse(ctx, m[1], "with_port-with_scheme")
+            b = call(lambda: P.URL.build(scheme=other, host=host, port=port, path="/" + t))
+            if b[0] == "ok":
+                reparse(ctx, b[1], "build-port")
 
 
 def families(tier):
@@ -112,6 +139,8 @@ def families(tier):
         fams.append(Family("url/%s" % nm, h_fixed_point, dict(skeleton=sk), backends=("py", "c") if nm in ("path-esc", "query-esc", "userinfo-esc") else ("py",)))
     for k in range(0, (3 if q else 4) + 1):
         fams.append(Family("url/free/n=%d" % k, h_fixed_point, dict(skeleton=[NS] * k, assume_kind="free")))
+    for host in ("h", "::1", "1.2.3.4", "fe80::1%eth0"):
+        fams.append(Family("made/port-routes/%s" % host, h_port_routes, dict(host=host)))
     for route in ("build", "build-noauth", "with_path", "with_query", "with_fragment", "with_user", "div", "with_name", "join", "relative", "with_scheme"):
         for nm, sk in (("free1", [NS]), ("esc", ["%", HEX, HEX])) + (() if q else (("free2", [NS, NS]),)):
             fams.append(Family("made/%s/%s" % (route, nm), h_built, dict(skeleton=sk, route=route)))
